@@ -21,6 +21,58 @@ class PredRaise(Exception):
 RAISES = [PredRaise, StopIteration, AttributeError, IndexError]
 
 
+class Num:
+    """an integer-like user value with NO JSON form (a reading object, a Decimal-like, a numpy scalar …): compares,
+    hashes and prints like the int it stands for.  Events carrying it behave exactly like events carrying the int for
+    every predicate of this language; anything that needs the JSON text of an event (a log line built from `str(event)`, a
+    serialiser called where none is needed) fails on it."""
+    __slots__ = ('v',)
+
+    def __init__(self, v):
+        self.v = int(v)
+
+    def _o(self, o):
+        return o.v if isinstance(o, Num) else o
+
+    def __eq__(self, o):
+        return self.v == self._o(o)
+
+    def __ne__(self, o):
+        return self.v != self._o(o)
+
+    def __lt__(self, o):
+        return self.v < self._o(o)
+
+    def __le__(self, o):
+        return self.v <= self._o(o)
+
+    def __gt__(self, o):
+        return self.v > self._o(o)
+
+    def __ge__(self, o):
+        return self.v >= self._o(o)
+
+    def __hash__(self):
+        return hash(self.v)
+
+    def __int__(self):
+        return self.v
+
+    def __index__(self):
+        return self.v
+
+    def __str__(self):
+        return str(self.v)
+
+    __repr__ = __str__
+
+    def __format__(self, spec):
+        return format(self.v, spec)
+
+
+OPAQUE = {'on': False}
+
+
 def kind_of(e):
     if isinstance(e, BoboEventComplex):
         return 'c'
@@ -141,6 +193,8 @@ def config_lines(phens, cache):
 # ---- events / records -----------------------------------------------------
 
 def mk_event(eid, ts, kind, data):
+    if OPAQUE['on'] and sum(map(ord, str(eid))) % 2 == 0:
+        data = Num(data)           # every other event carries its number as a value without JSON form
     if kind == 's':
         return BoboEventSimple(eid, ts, data)
     if kind == 'c':
